@@ -182,6 +182,18 @@ func (w *walk) doRoll() {
 	}
 }
 
+// doRollX: roll-over overlapping the TTL firing of parked request id (expire id ; roll ; finish id).
+func (w *walk) doRollX(id int) {
+	s := w.s
+	w.add("rollx r=%d", id)
+	if id < len(s.reqs) && s.reqs[id].ph == "parked" && s.reqs[id].dl <= s.now && s.rollDue <= s.now {
+		s.roll() // the expiring request is still eligible for the hand-off
+		if s.reqs[id].ph == "parked" {
+			s.reqs[id].ph = "woke"
+		}
+	}
+}
+
 func (w *walk) doExpire(id int) {
 	s := w.s
 	w.add("expire r=%d", id)
@@ -282,6 +294,10 @@ func genWalk(r *prng.R, style, maxReqs, maxOps int) []string {
 		if len(due) == 0 {
 			wExp = 0
 		}
+		if rollDue && len(due) > 0 && r.Chance(45) {
+			w.doRollX(prng.Pick(r, due))
+			continue
+		}
 		x := r.Intn(wEnq + wPark + wRoll + wExp + wTick + wBad)
 		switch {
 		case x < wEnq:
@@ -365,6 +381,9 @@ func enumerate(tag string, quota int64, depth, maxReqs int, emit func(proto.Case
 			}
 			if r.ph == "parked" && r.dl <= s.now {
 				try(func(w *walk) { w.doExpire(i) })
+				if s.rollDue <= s.now {
+					try(func(w *walk) { w.doRollX(i) })
+				}
 			}
 		}
 		if s.rollDue <= s.now {
